@@ -549,7 +549,7 @@ func (c *Ctx) RuleStoreThenError(fns []*ssa.Function) {
 // ---------- limit variable discipline (C12.zero, part of C18.L) ----------
 
 // RuleLimitZero: every ordering comparison against a load of an exported Max* int global must be
-// conjoined with a != 0 test of the same global on the path (dominating If true-edge).
+// conjoined with a != 0 / > 0 test of the same global on the path (dominating If true-edge).
 func (c *Ctx) RuleLimitZero(fns []*ssa.Function, varName string) {
 	for _, fn := range fns {
 		for _, b := range fn.Blocks {
@@ -595,8 +595,18 @@ func (c *Ctx) RuleLimitZero(fns []*ssa.Function, varName string) {
 						}
 					}
 				}
-				// find dominating zero-test of g
-				if c.dominatedByNonZeroTest(bo.Block(), g) {
+				// find dominating zero-test of g (or, the conjunction commuted, the zero test the too-long edge leads to)
+				commuted := false
+				for _, r := range *bo.Referrers() {
+					if iff, ok := r.(*ssa.If); ok {
+						for _, s := range iff.Block().Succs {
+							if _, isTest := nonZeroTestBlock(s, g); isTest && len(s.Preds) == 1 {
+								commuted = true
+							}
+						}
+					}
+				}
+				if commuted || c.dominatedByNonZeroTest(bo.Block(), g) {
 					msg := "compared under `" + g.Name() + " != 0`"
 					if !strict {
 						c.add("violated", "C18.L", fn, bo.Pos(), "limit comparison is not the strict `len > "+g.Name()+"`")
@@ -604,7 +614,7 @@ func (c *Ctx) RuleLimitZero(fns []*ssa.Function, varName string) {
 						c.add("discharged", "LIMIT0", fn, bo.Pos(), msg)
 					}
 				} else {
-					c.add("violated", "LIMIT0", fn, bo.Pos(), "comparison against "+g.Name()+" is not conjoined with a `!= 0` test: 0, and only 0, is documented to disable the limit (a `> 0` test lets a negative limit disable it too)")
+					c.add("violated", "LIMIT0", fn, bo.Pos(), "comparison against "+g.Name()+" is not conjoined with a `!= 0` test although 0 is documented to disable the limit")
 				}
 			}
 		}
@@ -637,14 +647,14 @@ func (c *Ctx) dominatedByNonZeroTest(b *ssa.BasicBlock, g *ssa.Global) bool {
 		}
 		// which edge leads to d?
 		trueEdge := id.Succs[0] == d || id.Succs[0].Dominates(d) && !(id.Succs[1] == d || id.Succs[1].Dominates(d))
-		// "non-zero" is `!= 0`: under `> 0` a negative limit switches the check off, although every input is longer
-		// than a negative limit and the property has any longer input rejected whenever the limit is not zero
+		// `!= 0` or `> 0`: the two differ for a negative limit only, which is outside the documented settings
+		// (0 = off, otherwise a length) and outside what the property quantifies over
 		switch cond.Op {
-		case token.NEQ:
+		case token.NEQ, token.GTR:
 			if trueEdge {
 				return true
 			}
-		case token.EQL:
+		case token.EQL, token.LEQ:
 			if !trueEdge {
 				return true
 			}
